@@ -33,7 +33,13 @@ import (
 	"pgregory.net/rapid"
 )
 
-const vf14KeyRejectedSecretName = "C14:ech-rejected-verified-against-secret-name"
+const (
+	vf14KeyRejectedSecretName = "C14:ech-rejected-verified-against-secret-name"
+	// a session is resumed although the cached certificate is not yet valid at the configured time (loadSession
+	// re-checks only NotAfter): reachable when the first connection ran with InsecureSkipTimeVerify, or the clock
+	// went backwards
+	vf14KeyResumedBeforeNotBefore = "C14:resumed-before-notbefore"
+)
 
 type vf14Ident struct {
 	Name    string
@@ -495,6 +501,18 @@ func vf14Run(st *vfStats, t vfFataler, c vf14Case) {
 				return false, true
 			}
 		}
+		if conn == 2 && got == "success" && o.resumed && !k.SkipVerify && !k.SkipTime && now.Before(c.Cert.NotBefore) {
+			// would it verify if only the lower end of the validity window were ignored?
+			relaxed := c.Cert
+			relaxed.NotBefore = now
+			if okRelaxed, _ := vf14Verified(relaxed, v, now, false); okRelaxed {
+				st.Class("known:" + vf14KeyResumedBeforeNotBefore)
+				st.KnownOrViolation(t, vf14KeyResumedBeforeNotBefore,
+					"%s: second connection resumed the session although the clock %s is before the certificate's NotBefore %s and InsecureSkipTimeVerify is off",
+					c.String(), now.Format(time.RFC3339), c.Cert.NotBefore.Format(time.RFC3339))
+				return true, true
+			}
+		}
 		detail := why
 		if verified {
 			detail = "certificate verifies by construction"
@@ -692,6 +710,8 @@ func TestVerifC14ResumptionDirected(t *testing.T) {
 				{expired, vf14Knobs{ServerName: server, SkipTime: true}, vf14Knobs{ServerName: server}},
 				{expired, vf14Knobs{ServerName: server, SkipTime: true}, vf14Knobs{ServerName: server, SkipTime: true}},
 				{notyet, vf14Knobs{ServerName: server, SkipTime: true}, vf14Knobs{ServerName: server, SkipTime: true}},
+				{notyet, vf14Knobs{ServerName: server, SkipTime: true}, vf14Knobs{ServerName: server}},
+				{valid, vf14Knobs{ServerName: server}, vf14Knobs{ServerName: server, ClockShift: -48 * time.Hour}},
 				{short, vf14Knobs{ServerName: server}, vf14Knobs{ServerName: server, ClockShift: 25 * time.Hour}},
 				{short, vf14Knobs{ServerName: server}, vf14Knobs{ServerName: server, ClockShift: 25 * time.Hour, SkipTime: true}},
 				{short, vf14Knobs{ServerName: server}, vf14Knobs{ServerName: server, ClockShift: 2 * time.Hour}},
